@@ -1143,7 +1143,10 @@ fn execute_once(scn: &Scn, prop: &str, stats: &mut Stats, entropy: u64) -> Outco
         violations.push(Violation::new("C06", "at-most-one-reply", "unsolicited-datagram", format!("worker {} sent a {}-byte datagram to {} that answers no received request", tname(*tid), len, dest)));
     }
     // ---- walk the requests in handling order
-    let stale_ns = 256 * scn.poll_timeout_ms.max(1) * 1_000_000 + 2_000_000;
+    // a worker refreshes its time samples every 256 loop iterations (each at most one poll timeout long) - and a stall
+    // injected into a worker stretches that by its length
+    let stalls_ns: u64 = scn.faults.iter().map(|f| if let PF::Stall { ms, .. } = f { ms * 1_000_000 } else { 0 }).sum();
+    let stale_ns = 256 * scn.poll_timeout_ms.max(1) * 1_000_000 + 2_000_000 + stalls_ns;
     let mut o = Oracle {
         scn,
         violations: Vec::new(),
